@@ -18,3 +18,5 @@
 	} while (0)
 
 void h_res_parse_line(void) { nng_http *conn; uint8_t *line; VP_HAVOC_GHOSTS(); http_res_parse_line(conn, line); VP_CANARY(); }
+void h_parse_header(void) { nng_http *conn; void *line; VP_HAVOC_GHOSTS(); http_parse_header(conn, line); VP_CANARY(); }
+void h_req_parse_line(void) { nng_http *conn; void *line; VP_HAVOC_GHOSTS(); http_req_parse_line(conn, line); VP_CANARY(); }
